@@ -410,3 +410,32 @@ def c14(tier):
                 for fx in fixes:
                     us.append(U(f"ns:{integ}:p{phys}:t{nm}-{pf}-{dt}:nb2:f{fx[0]}.{fx[1]}", "ns", "ns", dict(base, nb=2, fix1=list(fx)), timeout=600))
     return us + [twin(us[1]), twin(us[-1])]
+
+
+@prop("C20", functions=["pyjelly/serialize/streams.py:TripleStream.triple", "pyjelly/serialize/streams.py:QuadStream.quad", "pyjelly/serialize/streams.py:GraphStream.graph",
+                        "pyjelly/serialize/encode.py:*", "pyjelly/serialize/lookup.py:*", "pyjelly/integrations/generic/serialize.py:GenericSinkTermEncoder.*", "pyjelly/integrations/rdflib/serialize.py:RDFLibTermEncoder.*"],
+      bounds={"quick": {"drive": "TripleStream / QuadStream / GraphStream driven statement by statement in a catch-and-continue loop, 3 statements, fault position 0..2, slot {s,p,o,g,nested}, cause {unsupported term type, typed literal with datatype table 0, short tuple} all symbolic; frame_size symbolic (all integers >= 1); prefix table 0 and 4; both integrations"}},
+      outside="longer streams; causes outside the three catalogued ones",
+      explanation="H-FAULT: the final bytes decode (reference) to exactly the accepted statements or every later call raises; bytes written before the fault are a decodable prefix")
+def c20(tier):
+    us = []
+    for integ in ("generic", "rdflib"):
+        for phys in (1, 2, 3):
+            for pf in (4, 0):
+                us.append(U(f"fault:{integ}:p{phys}:pf{pf}", "fault", "fault", dict(integ=integ, phys=phys, prefixes=pf, datatypes=4), timeout=600))
+    return us + [twin(us[0])]
+
+
+@prop("C18", functions=["pyjelly/serialize/lookup.py:Lookup.insert", "pyjelly/serialize/lookup.py:LookupEncoder.encode_entry_index", "pyjelly/serialize/encode.py:TermEncoder.encode_iri_indices",
+                        "pyjelly/serialize/encode.py:TermEncoder.encode_literal", "pyjelly/serialize/encode.py:TermEncoder.encode_quoted_triple", "pyjelly/serialize/encode.py:encode_spo", "pyjelly/options.py:LookupPreset.__post_init__"],
+      bounds={"quick": {"statement": "one statement after a table-filling first statement; subject x predicate x object x graph from alphabets with up to 5 prefixes, 3 datatypes, quoted triples nested up to depth 4 with 9 names; all selectors symbolic",
+                        "tables": "max_prefixes symbolic 1..3 (thorough 1..5), max_datatypes symbolic 1..3, max_names 8; TRIPLES/QUADS/GRAPHS"}},
+      outside="tables larger than the bounds; more than one over-capacity statement per stream",
+      explanation="the writer raised, or both the reference decoder and pyjelly's parser return the input; fitting statements must never be refused")
+def c18(tier):
+    us = []
+    for phys in (1, 2, 3):
+        for s_ in range(5):
+            us.append(U(f"overcap:p{phys}:s{s_}", "overcap", "overcap", dict(phys=phys, s=s_, maxpf=3 if tier == "quick" else 5, fs=250 if s_ % 2 else 1,
+                             gmax=4 if (tier != "quick" or phys == 1) else 2, dtmax=3 if (tier != "quick" or phys == 1) else 2), timeout=900))
+    return us + [twin(us[0])]
